@@ -164,7 +164,7 @@ package providers
 //@ func (p *SingleFlightProvider) ValidateSessionState(s *sessions.SessionState, allowedGroups []string) bool
 //@   let G = old(p.single)
 //@   let before_runs = old(p.single.$runs)
-//@   ensures [C16 C01 C04 C05] keyed_on_access_token: called(@do#1) && arg(@do#1, 1) == "ValidateSessionState" && arg(@do#1, 2) == old(s.AccessToken)
+//@   ensures [C16 C01 C04 C05 C19] keyed_on_access_token: called(@do#1) && arg(@do#1, 1) == "ValidateSessionState" && arg(@do#1, 2) == old(s.AccessToken)
 //@   ensures [C16] answer_is_the_executions: result ==> @do#1.1 == nil && typeis(@do#1.0, "bool") && unbox(@do#1.0, "bool")
 //@   ensures [C16] merged_caller_gets_the_session_updates: result ==> G.$runs == before_runs + 1
 
